@@ -490,7 +490,9 @@ func expectation(cont, key stick.Value, args []stick.Value) (mode expMode, cands
 			return false
 		}()
 		if panicked {
-			return userPanic, nil // e.g. a method promoted through a nil embedded pointer
+			// the zoo's methods do not panic of their own accord: this is a method promoted through an embedded
+			// pointer or interface that is nil. It cannot be called - an error, like a method on a nil receiver
+			return mustErr, nil
 		}
 		if exactArgs {
 			return loosen(mustElem), []interface{}{out[0].Interface()}
